@@ -203,6 +203,67 @@ def kgf_seed_zero(part):
     part.nstates(15)
 
 
+def kgf_alpha(D):
+    """the Korobov multipliers as the definition gives them: g = the positive root of x^(D+1) = x + 1 (fixed-point iteration), a_i = g^-(i+1) mod 1"""
+    x = 2.0
+    for _ in range(30):
+        x = (1.0 + x) ** (1.0 / (D + 1.0))
+    return np.array([(1.0 / x) ** (i + 1) % 1.0 for i in range(D)])
+
+
+def kgf_sweep_worker(part, D):
+    """
+    the Korobov part of the quantified domain COMPLETELY: every seed 0 .. 10^6 + 256 in dimension D, in windows of 2^16 seeds - the batch
+    generator, the front end on the same window (bit for bit the same array), the half-open range, the definition frac(1/2 + a_i (N + 1))
+    (to 1e-9 on the circle), and the single-point generator at the extreme values of every window (nearest to 0, nearest to 1) and its ends
+    """
+    from chmpy import sampling as S
+
+    a = kgf_alpha(D)
+    last = 1000256
+    case = {"kind": "kgf-sweep", "D": D}
+    for s in range(0, last + 1, 65536):
+        n = min(65536, last + 1 - s)
+        part.ev()
+        part.tr(3)
+        try:
+            B = S.quasirandom_kgf_batch(s, s + n - 1, D)
+            Q = S.quasirandom(n, D, method="kgf", seed=s)
+        except Exception as e:
+            part.fail("kgf-sweep:raise", "Korobov generators raised %r for the window [%d, %d], D=%d" % (e, s, s + n - 1, D), case)
+            return
+        if B.shape != (n, D) or Q.shape != (n, D):
+            part.fail("kgf-sweep:shape", "Korobov window [%d, %d], D=%d: shapes %s / %s" % (s, s + n - 1, D, B.shape, Q.shape), case)
+            return
+        if not np.array_equal(Q, B):
+            r, c = np.argwhere(Q != B)[0]
+            part.fail("kgf-sweep:front-end", "quasirandom(%d, %d, 'kgf', seed=%d) differs from the batch generator at seed %d, coordinate %d: %r vs %r (%d entries differ)"
+                      % (n, D, s, s + r, c, Q[r, c], B[r, c], int((Q != B).sum())), case)
+            return
+        if not (B.min() >= 0) or B.max() >= 1:
+            part.fail("kgf-sweep:range", "Korobov window [%d, %d], D=%d leaves [0,1)" % (s, s + n - 1, D), case)
+            return
+        N1 = np.arange(s, s + n, dtype=np.float64) + 1.0
+        want = (0.5 + a[None, :] * N1[:, None]) % 1.0
+        dev = np.abs(B - want)
+        dev = np.minimum(dev, 1.0 - dev).max()
+        part.dev("kgf_definition", float(dev))
+        if not (dev <= 1e-9):
+            part.fail("kgf-sweep:definition", "Korobov window [%d, %d], D=%d deviates by %.3g from frac(1/2 + a_i (N+1))" % (s, s + n - 1, D, dev), case)
+            return
+        rows = {0, n - 1, int(np.argmin(B.min(axis=1))), int(np.argmax(B.max(axis=1)))}
+        for r in rows:
+            v = S.quasirandom_kgf(s + r, D)
+            q1 = S.quasirandom(D, method="kgf", seed=s + r)
+            part.tr(2)
+            if v.shape != (D,) or not (np.abs(v - B[r]).max() <= 1e-12) or not np.array_equal(q1, v):
+                part.fail("kgf-sweep:single", "Korobov seed %d, D=%d: the single-point vector (generator / front end) differs from the batch row" % (s + r, D), case)
+                return
+        part.trace(n)
+    part.outcome(("kgf-sweep", D % 4))
+    part.nstates(1)
+
+
 def keyword_calls(part, _=None):
     """the generators called with their documented parameter names as keywords, in signature order and in every other order, and
     with a mixture of positional and keyword arguments: same points as the positional call"""
@@ -312,17 +373,21 @@ def run(ctx):
     ctx.log("sobol windows done")
     kdims = list(range(1, 65)) if ctx.thorough else [1, 2, 3, 4, 5, 7, 8, 9, 16, 31, 32, 33, 63, 64]
     ctx.pmap(window_worker, [ws[i::nchunk] for i in range(nchunk)], method="kgf", dims=kdims, budget=budget)
+    ctx.pmap(kgf_sweep_worker, sorted(range(1, 65), reverse=True))
+    ctx.log("korobov sweep done")
     ctx.rule = ("Sobol stratification: dims 1..1000 x m = 0..12 (complete); (0,m,2)-net: all 91 (m, box shape) pairs; direct reference for dims 1..13 x 4096 "
                 "seeds; batch = single = prefix rows on %d seed windows (all s in 1..64 x k in 0..64, s within +-2 of 2^1..2^20 and at 10^6 with k in "
                 "{0,1,2,256}) x dims %s (Sobol) / %d Korobov dimensions; front end incl. all call histories of length <= %d over 8 colliding front-end calls (hidden state); repeat calls; states = windows and (dimension, m) pairs"
                 % (len(ws), sob_dims, len(kdims), 3 if ctx.thorough else 2))
-    ctx.bounds = {"windows": len(ws), "sobol_dims": sob_dims, "korobov_dims": kdims, "stratification": "dims 1..1000, m<=12"}
+    ctx.bounds = {"korobov_complete": "every seed 0..1000256 x every dimension 1..64 (2.1e9 coordinates): batch = front end bit for bit, range, definition, singles at the extremes", "windows": len(ws), "sobol_dims": sob_dims, "korobov_dims": kdims, "stratification": "dims 1..1000, m<=12"}
     ctx.assumptions = ["Sobol comparisons are bit-exact; Korobov to 1e-9", "work budget: windows with (last seed x dimension) above %.1e are skipped for Sobol, above %.1e x window length only the window end points are compared with the single-point generator" % (3e8 * budget, 2e8 * budget),
                        "the compiled extension modules are exercised as built (Cython is not available offline)"]
     ctx.sample({"windows": ws[:3] + ws[-3:]})
 
 
 def replay(ctx, case):
+    if case.get("kind") == "kgf-sweep":
+        return kgf_sweep_worker(ctx, case["D"])
     k = case["kind"]
     if k == "strat":
         strat_worker(ctx, tuple(case["dims"]))
